@@ -11,6 +11,7 @@ import (
 	"crypto/sha256"
 	"encoding/json"
 	"fmt"
+	"os"
 	"testing"
 
 	pkgproof "github.com/celestiaorg/celestia-app/v9/pkg/proof"
@@ -427,6 +428,9 @@ func c12RowsLabel(blk *c12Block, bl c12Blob) string {
 
 // c12JudgeTampered applies the oracle to one tampered claim and records it.
 func c12JudgeTampered(t *rapid.T, blk *c12Block, bl c12Blob, cl c12Claim, kind, descBase string) {
+	if os.Getenv("C12_TRACE") != "" {
+		fmt.Fprintf(os.Stderr, "C12_TRACE verify %s %s\n", kind, c12DescribeCP(cl.P))
+	}
 	err, pan := c12VerifyCP(cl.P, cl.Root, cl.Com)
 	validates := c12ValidateCP(cl.P)
 	outcome := "rejected"
@@ -936,6 +940,14 @@ func FuzzVerifC12_CommitmentProofJSON(f *testing.F) {
 		var p CommitmentProof
 		if err := p.UnmarshalJSON(data); err != nil {
 			return
+		}
+		for _, sp := range p.SubtreeRootProofs {
+			// absurd leaf ranges are judged by the allocation-bounded fixed witness
+			// (TestVerifC12_Witnesses); on a tree without the range guard they would make the
+			// verifier allocate tens of GB and take the machine down with the fuzzing worker
+			if sp != nil && (sp.End() > 1<<41 || sp.Start() < -(1<<41)) {
+				return
+			}
 		}
 		err, pan := c12VerifyCP(&p, blk.DataRoot, target.Commitment)
 		if pan != nil {
